@@ -47,6 +47,10 @@ def shard_teardown(ctx):
 
 
 def gen_case(rng, i, tier):
+    if i % 200 == 13:
+        case = mcase.gen_large_mcase(rng, width=True)
+        case["ops"] = gen.gen_history(rng, len(case["trace"]), case["cfg"]["width"], allow_cwd=False, allow_restart=False, max_ops=2, unique=False)
+        return case
     case = mcase.gen_mcase(rng, width=True, tighten_p=0.25, sparse_p=0.35, max_obs=10,
                            kinds=("random", "grid", "grid", "chain", "chain_dyadic"))
     n = len(case["trace"])
@@ -74,6 +78,8 @@ def max_candidates(mt):
 
 
 def check_case(ctx, case):
+    if case.get("large"):
+        ctx.count("large_map_cases")
     mon = ctx.state["mon"]
     tr = build.trace(case["trace"])
     cfg = case["cfg"]
